@@ -24,19 +24,55 @@ func resolveResult(ret *ssa.Return, i int) ssa.Value {
 	if !ok {
 		return v
 	}
-	// latest store to al in the same block before the load
+	// latest store to al in the same block before the load; `return x, nil` with named
+	// results stores the cell's own value back (*cell = *cell), which is looked through
 	blk := ret.Block()
 	var last ssa.Value
-	for _, in := range blk.Instrs {
-		if in == ssa.Instruction(ld) {
-			break
+	var limit ssa.Instruction = ld
+	for round := 0; round < 4; round++ {
+		last = nil
+		for _, in := range blk.Instrs {
+			if in == limit {
+				break
+			}
+			if st, ok := in.(*ssa.Store); ok && st.Addr == al {
+				last = st.Val
+			}
 		}
-		if st, ok := in.(*ssa.Store); ok && st.Addr == al {
-			last = st.Val
+		if l2, ok := last.(*ssa.UnOp); ok && l2.Op == token.MUL && l2.X == ssa.Value(al) && l2.Block() == blk {
+			limit = l2
+			continue
 		}
+		break
 	}
 	if last != nil {
 		return last
+	}
+	// no store in the return's block: the store that dominates the return with no other
+	// store to the cell possible in between (named results set in an earlier block)
+	var stores []*ssa.Store
+	for _, ref := range *al.Referrers() {
+		if st, ok := ref.(*ssa.Store); ok && st.Addr == al {
+			stores = append(stores, st)
+		}
+	}
+	var best *ssa.Store
+	for _, s := range stores {
+		if !(s.Block().Dominates(blk) && s.Block() != blk) {
+			continue
+		}
+		clean := true
+		for _, o := range stores {
+			if o != s && reaches(s, o) && reaches(o, ret) {
+				clean = false
+			}
+		}
+		if clean {
+			best = s
+		}
+	}
+	if best != nil {
+		return best.Val
 	}
 	return v
 }
